@@ -106,7 +106,7 @@ def corr_influence_args(res, tier, rng):
                              {"line": l})
 
 
-def commuting_case(rng, tier):
+def commuting_case(rng, tier, force=None):
     import oqupy
     from . import cases
     d = rng.choice([2, 2, 3] if tier == "quick" else [2, 3, 3, 4])
@@ -128,14 +128,17 @@ def commuting_case(rng, tier):
         system = oqupy.System(h0)
     dt = rng.choice([0.1, 0.05, 0.2])
     modes_eta = None
-    if rng.random() < 0.35:
+    if force in ("commensurate", "incommensurate") or (force is None and rng.random() < 0.35):
         # a bath of finitely many harmonic modes, given through its autocorrelation function;
         # every other case with frequencies commensurate with the time step
         from . import run_C12
         temp = rng.choice([0.0, 0.7, 2.0])
         unit = 2 * np.pi / dt
-        if rng.random() < 0.5:
-            modes = [(unit * rng.choice([1, 2]) / rng.choice([1, 2]), rng.uniform(0.1, 0.4))
+        if force == "commensurate" or (force is None and rng.random() < 0.5):
+            # whole multiples of 2*pi/dt (Im C vanishes at every multiple of dt/2); when not
+            # forced, half multiples occur too
+            div = [1] if force == "commensurate" else [1, 2]
+            modes = [(unit * rng.choice([1, 2]) / rng.choice(div), rng.uniform(0.1, 0.4))
                      for _ in range(rng.choice([1, 2]))]
             kind = "commensurate"
         else:
@@ -148,6 +151,8 @@ def commuting_case(rng, tier):
     else:
         corr, cdesc = cases.rand_correlations(rng)
     dkmax, tau = cases.rand_memory(rng, n)
+    if force is not None:
+        dkmax, tau = None, None     # full memory: the analytic double integral applies
     start = rng.choice([0.0, 0.4, -1.0])
     rho0 = cases.rand_dm(rng, d)
     desc = {"d": d, "n": n, "eigenvalues": ev, "rotated": rotated, "timedep": timedep, "bath": cdesc,
@@ -188,7 +193,9 @@ def corr_closed_form(res, tier, rng):
     ncase = 6 if tier == "quick" else 40
     lines, meta = [], []
     for i in range(ncase):
-        case = commuting_case(rng, tier)
+        # the first two cases are always finite-mode baths (frequencies commensurate with the
+        # time step, then incommensurate); the rest draw the bath kind at random
+        case = commuting_case(rng, tier, force={0: "commensurate", 1: "incommensurate"}.get(i))
         n = case["n"]
         t = cases.make_tempo(case, unique=bool(i % 2))
         par = t._parameters
